@@ -36,7 +36,7 @@ EXPLANATION = (
     "R14e the line loop delivers the current line once, then increments the counter once, then fetches the next line "
     "once, on every path; the first line is number 1; R14f no dispatcher rebinds its context parameter (the object "
     "whose output file receives the line after the loop); R14g a provider that was consumed by the tokenizer is "
-    "reset before anything reads lines from it; R14i all dispatcher calls of one pass use the same per-plugin context map; R14h the line providers split the document on the newline character only (no str.splitlines / regular expressions). Not decided: the exact text of each delivered line (final-newline "
+    "reset before anything reads lines from it; R14i all dispatcher calls of one pass use the same per-plugin context map; R14h the line providers split the document on the newline character only (no str.splitlines / regular expressions). R14n the dispatch lists are written only while the configuration is applied; R14o a dispatcher that reads the fix line after a callback emptied it before the callback on every fix-mode path; a scan tokenizes unconditionally and the file provider reads in text mode with universal newlines. Not decided: the exact text of each delivered line (final-newline "
     "arithmetic), which tokens the parser produces."
 )
 ASSUMPTIONS = [
